@@ -1308,3 +1308,31 @@ def _discharge_division(F, b, tb, i, t, dv):
                                   for j, u in pushes):
                     return f"the element comes from a local Vec filled only by pushes guarded by `{fname} != 0`"
     return None
+
+
+DISCARDING = ("ok", "unwrap_or", "unwrap_or_default", "unwrap_or_else", "is_ok", "is_err", "map_or", "map_or_else", "err")
+
+
+def dropped_errors(F, bodies, crate_prefixes=("cgt_",)):
+    """[(body, site, callee, how)] for every call of a workspace function returning `Result<_, E>` whose result is handed straight to a
+    combinator that discards the error (`.ok()`, `.unwrap_or*()`, `.is_ok()`, `.map_or*()`): the refusal of the callee becomes an
+    absence or a default in the caller, and whatever the caller was building goes on without the element"""
+    from mir import Terms, parse_callee
+    out = []
+    for b in bodies:
+        tb = None
+        for i, t in b.calls():
+            if "core::result::Result" not in t["callee"]:
+                continue
+            m = parse_callee(t["callee"])[2]
+            if m not in DISCARDING or not t.get("args"):
+                continue
+            tb = tb or Terms(F, b, inline_depth=0)
+            recv = tb.operand(t["args"][0])
+            while isinstance(recv, tuple) and recv and recv[0] in ("ref", "deref") and len(recv) > 1:
+                recv = recv[1]
+            if isinstance(recv, tuple) and recv and recv[0] == "call":
+                h = F.bodies.get(recv[1])
+                if h is not None and any(h.crate.startswith(p) for p in crate_prefixes) and "Result<" in h.ret:
+                    out.append((b, b.loc(t["sp"]), h, m))
+    return out
